@@ -71,8 +71,29 @@ def random_indicators(rng, n, aniso=False):
         v = [0] * m
     else:
         v = [7] * m
-    scale = 2.0**rng.choice([0, -3, -10])
+    scale = 2.0**rng.choice([0, -3, -10, -40, -70])   # small magnitudes: absolute tolerances must play no role
     arr = np.array(v, dtype=float) * scale
+    return arr.reshape(2, n).T.copy() if aniso else arr
+
+
+def near_miss_indicators(rng, n, theta, aniso=False):
+    """Exactly representable indicators whose largest entry stays just (relative ~1e-6) below theta^2 * total, so
+    that the shortest admissible prefix has two entries."""
+    from fractions import Fraction
+    m = 2 * n if aniso else n
+    th2 = Fraction(theta)**2
+    if m < 3 or not (0 < th2 < 1):
+        return None
+    rest = [rng.randint(1000, 3000) * 1000 for _ in range(m - 1)]
+    R = sum(rest)
+    v = int(th2 * R / (1 - th2))          # v <= th2 (v + R)
+    while v >= th2 * (v + R):
+        v -= 1
+    if v <= max(rest):
+        return None
+    vals = rest + [v]
+    rng.shuffle(vals)
+    arr = np.array(vals, dtype=float) * 2.0**rng.choice([0, -20])
     return arr.reshape(2, n).T.copy() if aniso else arr
 
 
